@@ -379,72 +379,119 @@ def descent_rules(ck, F, S, intrusive, owning):
         if not cands:
             raise AnalysisBroken(f'no instantiation of {tmpl} with both find and insert')
         picks.append(cands[0])
+    comparator_result_rule(ck, F, picks)
     for tcls in picks:
-        core = [b['name'] for b in F.rec[tcls]['bases'] if b['name'].startswith('ipr::util::rb_tree::core<')][0]
-        N = F.rec[core]['targs'][0]
-        own = N.startswith('ipr::util::rb_tree::node<')
-        finds = [f for f in F.fns_in(tcls) if f['name'] == 'find']
-        inserts = [f for f in F.fns_in(tcls) if f['name'] == 'insert']
-        for n_nodes in (0, 1, 3):
-            table = {}
-            for fn in (finds[0], inserts[0]):
-                fr, nodes = small_tree(F, S, core, n_nodes)
-                fr.st.heap[fr.tree[1]].cls = tcls
-                # arguments: key / node and an opaque comparator
-                cmp_ = ('sym', 'comp')
-                if fn['name'] == 'find':
-                    args = [('sym', 'key'), cmp_]
-                elif own:
-                    args = [('sym', 'key'), cmp_]
-                else:
-                    znode = fr.node('new', RED)
-                    args = [('addr', znode), cmp_]
-                Sx = TreeSym(F, opaque=lambda fid: F.fn.get(fid) is None or contracts.fn_simple(fid) in ('fixup_insert', 'operator()'), max_depth=30, max_paths=400)
-                Sx.concrete_loops = True
-                try:
-                    outs = Sx.run(fn['id'], this=fr.tree, args=args, state=fr.st)
-                except Unsupported as e:
-                    raise AnalysisBroken(f'{fn["id"]}: {e}')
-                for st, k, v in outs:
-                    if k != 'return':
-                        table.setdefault(fn['name'], []).append(('throw', None, None, None))
-                        continue
-                    decisions = decisions_of(fr, st)
-                    table.setdefault(fn['name'], []).append((decisions, v, st, fr))
+        for n_nodes, problems, find0, insert0, ndesc in descent_check(F, tcls):
             inst = f'{contracts.short(tcls)}/{n_nodes}-node tree'
-            problems = agree(F, table, own, n_nodes)
-            ck.check(R1, inst, not problems[0], f'{tcls}: ' + '; '.join(problems[0]), loc=finds[0]['loc'], fn=inserts[0]['id'],
-                     detail={'descents': len(table.get('insert', []))})
-            ck.check(R2, inst, not problems[1], f'{tcls}: ' + '; '.join(problems[1]), loc=inserts[0]['loc'], fn=inserts[0]['id'])
+            ck.check(R1, inst, not problems[0], f'{tcls}: ' + '; '.join(problems[0]), loc=find0['loc'], fn=insert0['id'],
+                     detail={'descents': ndesc})
+            ck.check(R2, inst, not problems[1], f'{tcls}: ' + '; '.join(problems[1]), loc=insert0['loc'], fn=insert0['id'])
+
+
+def comparator_result_rule(ck, F, picks):
+    R = ck.rule('C08.comparator-result-unconverted', 'the descent loops test the comparator\'s result itself: a variable that receives it '
+                'has a type that follows its initialiser (auto / decltype / the comparator\'s own result type), never a type fixed by the '
+                'text of the template -- otherwise a total order whose result is wider than that type is truncated (keys whose difference '
+                'is a multiple of 2^32 compare equal, the sign of others flips) and find and insert disagree', floor=4)
+    for tcls in picks:
+        for fn in [f for f in F.fns_in(tcls) if f['name'] in ('find', 'insert') and f.get('body') is not None]:
+            parms = set(range(len(fn['params'])))
+            n = 0
+            bad = []
+
+            def is_cmp_call(x):
+                x = strip_casts(x)
+                if x.get('k') != 'call' or (x.get('callee') or {}).get('name') != 'operator()':
+                    return False
+                r = strip_casts(x.get('recv') or x.get('this') or x.get('obj') or {})
+                return r.get('k') == 'ref' and r.get('kind') == 'parm'
+            for node in walk(fn['body']):
+                if node.get('k') == 'decl':
+                    for v in node.get('vars', []):
+                        if v.get('init') is not None and is_cmp_call(v['init']):
+                            n += 1
+                            if not v.get('follows_init'):
+                                bad.append(f'`{v["name"]}` is declared `{v.get("t")}` whatever the comparator returns')
+            calls = sum(1 for node in walk(fn['body']) if is_cmp_call(node))
+            if calls == 0:
+                raise AnalysisBroken(f'{fn["id"]}: no call of the comparator parameter found')
+            ck.check(R, contracts.short(contracts.fn_qname(fn['id'])), not bad, f'{fn["id"]}: ' + '; '.join(bad), loc=fn['loc'], fn=fn['id'],
+                     detail={'comparator calls': calls, 'held in variables': n})
+
+
+def descent_check(F, tcls):
+    """find and insert of one tree class interpreted on explicit trees of 0, 1 and 3 nodes with an uninterpreted comparator:
+    yields (size, (descent problems, count/reuse problems), find, insert, number of descents)."""
+    S = Sym(F, opaque=lambda fid: F.fn.get(fid) is None)
+    S.concrete_loops = True
+    core = [b['name'] for b in F.rec[tcls]['bases'] if b['name'].startswith('ipr::util::rb_tree::core<')][0]
+    N = F.rec[core]['targs'][0]
+    own = N.startswith('ipr::util::rb_tree::node<')
+    finds = [f for f in F.fns_in(tcls) if f['name'] == 'find']
+    inserts = [f for f in F.fns_in(tcls) if f['name'] == 'insert']
+    if not finds or not inserts:
+        raise AnalysisBroken(f'{tcls}: find or insert is not instantiated')
+    for n_nodes in (0, 1, 3):
+        table = {}
+        for fn in (finds[0], inserts[0]):
+            fr, nodes = small_tree(F, S, core, n_nodes)
+            fr.st.heap[fr.tree[1]].cls = tcls
+            # arguments: key / node and an opaque comparator
+            cmp_ = ('sym', 'comp')
+            if fn['name'] == 'find':
+                args = [('sym', 'key'), cmp_]
+            elif own:
+                args = [('sym', 'key'), cmp_]
+            else:
+                znode = fr.node('new', RED)
+                args = [('addr', znode), cmp_]
+            Sx = TreeSym(F, opaque=lambda fid: F.fn.get(fid) is None or contracts.fn_simple(fid) in ('fixup_insert', 'operator()'), max_depth=30, max_paths=400)
+            Sx.concrete_loops = True
+            try:
+                outs = Sx.run(fn['id'], this=fr.tree, args=args, state=fr.st)
+            except Unsupported as e:
+                raise AnalysisBroken(f'{fn["id"]}: {e}')
+            for st, k, v in outs:
+                if k != 'return':
+                    table.setdefault(fn['name'], []).append(('throw', None, None, None))
+                    continue
+                decisions = decisions_of(fr, st)
+                table.setdefault(fn['name'], []).append((decisions, v, st, fr))
+        yield n_nodes, agree(F, table, own, n_nodes), finds[0], inserts[0], len(table.get('insert', []))
 
 
 def decisions_of(fr, st):
-    """Sequence of (node compared, sign) decisions taken on this path, read from the path conditions."""
-    out = []
+    """Sequence of (node compared, sign) decisions taken on this path: for every comparator call the path conditions test
+    against zero (in whatever order and with whatever operators: < > == != <= >=), the set of signs consistent with all of
+    them; a decision is a call whose sign is determined."""
+    order = []
+    feas = {}
     for c, val in st.conds:
-        # conditions are (cmp(data, key) < 0) or (cmp(...) > 0) over an uninterpreted comparator result
-        if isinstance(c, tuple) and c[0] == 'op' and c[1] in ('<', '>') and c[3] == ('k', 0, 'int'):
-            call = c[2]
-            who = None
-            for t in subterms(call):
-                if isinstance(t, tuple) and t and t[0] == 'obj' and t[1] in fr.names:
-                    who = fr.names[t[1]]
-                    break
-            out.append((who, c[1], val))
-    # collapse to sign per node: '<' true -> neg ; '<' false & '>' true -> pos ; both false -> zero
+        if not (isinstance(c, tuple) and len(c) == 4 and c[0] == 'op' and c[1] in ('<', '>', '==', '!=', '<=', '>=')):
+            continue
+        op, a, b = c[1], c[2], c[3]
+        if isinstance(a, tuple) and a[:2] == ('k', 0) and not (isinstance(b, tuple) and b[:2] == ('k', 0)):
+            a, b = b, a
+            op = {'<': '>', '>': '<', '<=': '>=', '>=': '<=', '==': '==', '!=': '!='}[op]
+        if not (isinstance(b, tuple) and b[:2] == ('k', 0) and b[2] != 'null'):
+            continue
+        if not any(isinstance(t, tuple) and t and t[0] in ('call', 'vcall') for t in subterms(a)):
+            continue
+        sat = {'<': {'neg'}, '>': {'pos'}, '==': {'zero'}, '!=': {'neg', 'pos'}, '<=': {'neg', 'zero'}, '>=': {'zero', 'pos'}}[op]
+        if not val:
+            sat = {'neg', 'zero', 'pos'} - sat
+        if a not in feas:
+            feas[a] = {'neg', 'zero', 'pos'}
+            order.append(a)
+        feas[a] &= sat
     signs = []
-    i = 0
-    while i < len(out):
-        who, op, val = out[i]
-        if op == '<' and val:
-            signs.append((who, 'neg'))
-            i += 1
-        elif op == '<' and not val and i + 1 < len(out) and out[i + 1][0] == who and out[i + 1][1] == '>':
-            signs.append((who, 'pos' if out[i + 1][2] else 'zero'))
-            i += 2
-        else:
-            signs.append((who, '?'))
-            i += 1
+    for call in order:
+        who = None
+        for t in subterms(call):
+            if isinstance(t, tuple) and t and t[0] == 'obj' and t[1] in fr.names:
+                who = fr.names[t[1]]
+                break
+        signs.append((who, next(iter(feas[call])) if len(feas[call]) == 1 else '?'))
     return tuple(signs)
 
 
